@@ -21,7 +21,7 @@ from make_it_sync import make_sync
 
 from func_adl.util_types import unwrap_iterable
 
-from .util_ast import as_ast, check_ast, function_call, parse_as_ast
+from .util_ast import as_ast, check_ast, copy_ast, function_call, parse_as_ast
 
 # Attribute that will be used to store the executor reference
 executor_attr_name = "_func_adl_executor"
@@ -34,6 +34,19 @@ class ReturnedDataPlaceHolder:
     """Type returned for awkward, etc.,"""
 
     pass
+
+
+def _lambda_from_user(
+    func: Union[str, ast.Lambda, Callable], caller_name: str, known_types: Dict[str, Any]
+) -> ast.Lambda:
+    """Get the lambda as an `ast`. The type following code updates the lambda in place. If the
+    user handed us an `ast`, work on a copy so their object (which may already be part of another
+    query) is left alone. The nested calls made by the type follower (they pass `known_types`)
+    rely on the in-place update, so they get the lambda as is."""
+    a = parse_as_ast(func, caller_name)
+    if isinstance(func, ast.AST) and len(known_types) == 0:
+        a = copy_ast(a)
+    return a
 
 
 def _local_simplification(a: ast.Lambda) -> ast.Lambda:
@@ -119,7 +132,9 @@ class ObjectStream(Generic[T]):
         from func_adl.type_based_replacement import remap_from_lambda
 
         n_stream, n_ast, rtn_type = remap_from_lambda(
-            self, _local_simplification(parse_as_ast(func, "SelectMany")), known_types
+            self,
+            _local_simplification(_lambda_from_user(func, "SelectMany", known_types)),
+            known_types,
         )
         check_ast(n_ast)
 
@@ -151,7 +166,7 @@ class ObjectStream(Generic[T]):
         from func_adl.type_based_replacement import remap_from_lambda
 
         n_stream, n_ast, rtn_type = remap_from_lambda(
-            self, _local_simplification(parse_as_ast(f, "Select")), known_types
+            self, _local_simplification(_lambda_from_user(f, "Select", known_types)), known_types
         )
         check_ast(n_ast)
         return self.clone_with_new_ast(
@@ -181,7 +196,9 @@ class ObjectStream(Generic[T]):
         from func_adl.type_based_replacement import remap_from_lambda
 
         n_stream, n_ast, rtn_type = remap_from_lambda(
-            self, _local_simplification(parse_as_ast(filter, "Where")), known_types
+            self,
+            _local_simplification(_lambda_from_user(filter, "Where", known_types)),
+            known_types,
         )
         check_ast(n_ast)
         if rtn_type != bool:
